@@ -1526,6 +1526,11 @@ func (b *Builder) PointerTwin(name string) {
 // types - variadic ones included - inside unnamed containers, on both sides alike.
 func (b *Builder) FuncTypeSignature(name string) {
 	f := spec.Func([]string{"func(...string)", "func(string, ...int) string", "func(int) (string, error)", "func(func(...int)) []string"}[b.draw(4, "func-signature")])
+	if b.coin("func-signature-named-element") {
+		// the element of the variadic parameter is a named type of the source package
+		opt := b.namedBasic(b.A, "Opt", spec.Basic("int"))
+		f = spec.FuncOf([]string{"func(...%s)", "func(string, ...%s) string", "func(%s) error"}[b.draw(3, "func-signature-named")], opt)
+	}
 	var t *spec.T
 	switch b.draw(3, "func-signature-container") {
 	case 0:
